@@ -40,4 +40,7 @@ func TestAll(t *testing.T) {
 	if InitSend(make(chan int, 1)) != 9 {
 		t.Fatal("InitSend")
 	}
+	if Timeout() != -1 || Cancel() != 7 || CancelSelect() != 3 || AfterFunc() != 5 {
+		t.Fatal("timers / context")
+	}
 }
